@@ -119,7 +119,115 @@ func checkC13(c *Ctx) {
 			}
 		}
 	}
-	_ = token.NoPos
+	// C13.5: the published selector is immutable — a request works on a snapshot pointer after
+	// releasing the lock, so "old or new set in full" needs the object itself never to change.
+	r.Rule("C13.5", "the registrar never mutates a published selector in place (no field write, no mutating method)", 1)
+	mut := mutatingMethods(c, "pkg/phantoms", "PhantomIPSelector")
+	regFns := c.funcsOfPkgs(append(pkgs, "cmd/regserver")...)
+	nMut := 0
+	for _, f := range regFns {
+		eachInstr(f, func(in ssa.Instruction) {
+			switch x := in.(type) {
+			case *ssa.Store:
+				if o, fld, ok := fieldOwner(x.Addr); ok && o == "phantoms.PhantomIPSelector" {
+					nMut++
+					r.Bad("C13.5", fnName(f)+": writes PhantomIPSelector."+fld+" in place", in.Pos(), fnName(f),
+						"the selector object is shared with in-flight requests that hold a snapshot pointer without the lock: modifying it in place lets one request see a mixture of the old and the new subnet set (and is a data race)")
+				}
+			case *ssa.MapUpdate:
+				if u, ok := x.Map.(*ssa.UnOp); ok {
+					if o, fld, ok := fieldOwner(u.X); ok && o == "phantoms.PhantomIPSelector" {
+						nMut++
+						r.Bad("C13.5", fnName(f)+": updates map PhantomIPSelector."+fld+" in place", in.Pos(), fnName(f), "in-place mutation of the published selector")
+					}
+				}
+			case ssa.CallInstruction:
+				if cal := x.Common().StaticCallee(); cal != nil && mut[cal] {
+					// allowed on objects created in this function (not yet published)
+					if len(x.Common().Args) > 0 && isFreshValue(x.Common().Args[0]) {
+						return
+					}
+					nMut++
+					r.Bad("C13.5", fnName(f)+": calls mutating method "+fnName(cal)+" on a possibly published selector", in.Pos(), fnName(f), "in-place mutation of the published selector")
+				}
+			}
+		})
+	}
+	if nMut == 0 {
+		var names []string
+		for m := range mut {
+			names = append(names, m.Name())
+		}
+		sortStrings(names)
+		r.OK("C13.5", "registrar packages contain no in-place mutation of a PhantomIPSelector", token.NoPos, fmt.Sprintf("%d function(s) scanned; mutating methods computed from pkg/phantoms: %v", len(regFns), names))
+	}
+}
+
+// mutatingMethods computes the methods of pkg.typ that (transitively through same-type method calls) write the receiver's fields or maps loaded from them.
+func mutatingMethods(c *Ctx, pkg, typ string) map[*ssa.Function]bool {
+	out := map[*ssa.Function]bool{}
+	fns := c.funcsOfPkgs(pkg)
+	owner := pkg[strings.LastIndex(pkg, "/")+1:] + "." + typ
+	isMethod := func(f *ssa.Function) bool {
+		return f.Signature.Recv() != nil && strings.HasSuffix(typeShort(f.Signature.Recv().Type()), owner)
+	}
+	changed := true
+	for changed {
+		changed = false
+		for _, f := range fns {
+			if !isMethod(f) || out[f] {
+				continue
+			}
+			m := false
+			eachInstr(f, func(in ssa.Instruction) {
+				switch x := in.(type) {
+				case *ssa.Store:
+					if o, _, ok := fieldOwner(x.Addr); ok && o == owner {
+						m = true
+					}
+				case *ssa.MapUpdate:
+					if u, ok := x.Map.(*ssa.UnOp); ok {
+						if o, _, ok := fieldOwner(u.X); ok && o == owner {
+							m = true
+						}
+					}
+				case *ssa.Call:
+					if b, ok := x.Call.Value.(*ssa.Builtin); ok && b.Name() == "delete" {
+						if u, ok := x.Call.Args[0].(*ssa.UnOp); ok {
+							if o, _, ok := fieldOwner(u.X); ok && o == owner {
+								m = true
+							}
+						}
+					}
+					if cal := x.Call.StaticCallee(); cal != nil && out[cal] {
+						m = true
+					}
+				}
+			})
+			if m {
+				out[f] = true
+				changed = true
+			}
+		}
+	}
+	return out
+}
+
+// isFreshValue: the value is an allocation made in this function.
+func isFreshValue(v ssa.Value) bool {
+	for i := 0; i < 8; i++ {
+		switch x := v.(type) {
+		case *ssa.Alloc:
+			return true
+		case *ssa.UnOp:
+			v = x.X
+		case *ssa.Phi:
+			return false
+		default:
+			return false
+		}
+	}
+	return false
 }
 
 // orderEq renders "a == b" with operands in canonical (sorted) order.
